@@ -305,13 +305,13 @@ CLAIMED = {
 
 # sentences appended to the claims by later extensions (kept apart from the original texts so that the history stays readable)
 EXTRA_TEXT = {
- 'C01': ' Histories of calls on one long-lived fitter (hist.py) against a fresh fitter. Route A table obligation `registry_perpoint_keys_shaped` over Gen/Registry (closure cells of the wrapper and one probe call per method, regenerated on every run): no public method hands back a flat per-point array and every 2-D reshape key is also un-sorted.',
+ 'C01': ' Route A for the loops: the allocation, range header, write index, break tests and final slice of all 65 iterative functions are parsed from the source on every run (Gen/Loops); for every row and all inputs `loops_writes_in_bounds`, `loops_slice_initialised` (the returned record contains only written entries on every path), `loops_record_len` (<= max_iter + 1), `loops_stop_reason`, `loops_raise_iff_empty_range`, `loops_eq_skeleton`, `loops_budget_code`, and for the two-level loops `nest_memory_safe`, `nest_no_overwrite`; the real allocation / written set / slice are observed by tracing the method\'s frame and every row is replayed on real trajectories. Histories of calls on one long-lived fitter (hist.py) against a fresh fitter. Route A table obligation `registry_perpoint_keys_shaped` over Gen/Registry (closure cells of the wrapper and one probe call per method, regenerated on every run): no public method hands back a flat per-point array and every 2-D reshape key is also un-sorted.',
  'C02': ' Route A table obligation `registry_perpoint_keys_sorted` over Gen/Registry (regenerated on every run from the imported package): every method that lets the wrapper sort declares every per-point output for un-sorting, so it inherits the equivariance theorem; when the obligation breaks the flagged methods are driven first, on larger data and with every single-parameter variant. The conditioning excuse is granted per output (an output is excused only if its own difference is within 1000x its own movement under the perturbation).',
  'C05': ' Histories of calls on one long-lived fitter (also created without x and later given data of another length) run with the kernels\' Python source: cached objects carried from call to call must not make a kernel index outside its arrays. Further theorems: `_numba_banded_dot_banded` (all band counts and N, with the caller lemmas for `_banded_dot_banded` and the three calls of beads), `_quadratic_bezier` / `_quadratic_bezier_spline` (arbitrary argmin outcomes), `_interp_inplace` (through `_fill_skips` and `_find_peak_segments`), `_loess_solver` and the loop indices of the three loess kernels, and caller lemmas deriving each precondition from the guards of loess, the spline set-up, peak_filling, corner_cutting and the rolling-std padding; exact access traces of the kernels\' Python source against the models and precondition monitors on every kernel call made by the public methods.',
  'C03': ' Besides the modelled cache state machine: an object-history fuzzer over ALL public methods (random and systematic histories on one long-lived fitter: the same method with the same arguments, with one argument — one axis of a pair in 2-D, the wrapped method, each value of a string option — changed, two integer arguments moved in opposite directions, same-module methods in sequence; fitters created with / without x; the caller re-using its buffers) in which every call must give what a fresh fitter gives.',
  'C06': ' Further theorems: `kron_penalty_vec`, `doc2d_is_kron_sum`, `asm2d_den`, `doc2d_apply_vec` (the 2-D documented system is diag(w) + the Kronecker sum and acts on the row-major vec as row / column operators), `jbcd_asm_den` (+ `jbcd_signal_ne_documented`: the coded signal system differs from the documented one by the factor 2 on gamma — observation), `converged_pair_solves`, `exhausted_returns_fresh_state`, `stateful_refines_skeleton`, `brpls_pair_solves`, `jbcd_pair_solves`; captured 2-D sparse systems and jbcd band systems against the Lean assembly, loop models fed with the decisions of real runs. The 2-D returned-pair certificates run with the data and the weights in every memory layout (C / Fortran order, transposed and strided views), independently.',
  'C07': ' Further theorems: `pspline_iasls_extra` (+ `_full`, `_rhs`), `pspline_drpls_asm_den`, `pspline_aspls_asm_den` (+ `_midpoints`), `pspline_drpls_aspls_rhs`, `lowerToFull_den`, `addDiagonalsFull_den`, `shiftRows_reverse_colscale_any`; the systems captured at `PenalizedSystem.solve` for pspline_iasls / drpls / aspls are compared with the Lean assembly over solvers 1-4.',
- 'C09': ' Route A: the final weight expression of ten of the eleven rules is parsed from the source text of _weighting.py on every run (Gen/WeightExprs); `gen_<rule>_eq_model` proves it equal to the hand model and `src_<rule>_range` / `src_<rule>_antitone` / `src_quantile_bounds` transfer the theorems to the source expression (a changed constant, sign or cap breaks a named theorem); the translated expression is also evaluated in Float against the real functions. Histories on one long-lived fitter whose caller re-uses its data buffer: the weights of every call against a fresh fitter.',
+ 'C09': ' Route A for the stop rule: `loops_stop_first`, `loops_tol_tested` over the loops translated from the source. Route A: the final weight expression of ten of the eleven rules is parsed from the source text of _weighting.py on every run (Gen/WeightExprs); `gen_<rule>_eq_model` proves it equal to the hand model and `src_<rule>_range` / `src_<rule>_antitone` / `src_quantile_bounds` transfer the theorems to the source expression (a changed constant, sign or cap breaks a named theorem); the translated expression is also evaluated in Float against the real functions. Histories on one long-lived fitter whose caller re-uses its data buffer: the weights of every call against a fresh fitter.',
  'C10': ' Every 1-D method is also run on data with a 1e6 offset and little noise and on data scaled by 1e-6 / 1e6 in all configurations (a fall-back must be as accurate as the accelerated path, not only algebraically equal).',
  'C11': ' In the reconfiguration histories the real systems are USED in place between reconfigurations (add_diagonal + solve with and without overwrite_ab; solve_pspline), as the methods use them.',
  'C13': ' Histories on one long-lived fitter in which the SAME caller objects (data buffer overwritten in place, weights array, keyword dictionaries) are handed to several calls, every ordered pair of same-module methods that take weights included. method_kwargs dictionaries are also given keys that shadow the optimizer\'s own arguments or that it treats specially (weights, alpha, tol, lam, max_iter, x_data), with the explicit argument omitted.',
